@@ -358,6 +358,17 @@ v("C04", "b9-mount-reparse-parent-constraints-only", "break", "router.go", "\tif
 v("C02", "b9-star-decided-after-unescape", "break", "router.go", "\t\tisStar := pathPretty == \"/*\"", "\t\tisStar := pathClean == \"/*\"", "decided-on-escaped-pattern", "reverts F38")
 v("C08", "b8-error-handler-exact-prefix", "break", "app.go", "\tif !app.config.CaseSensitive {\n\t\tpath = utils.ToLower(path)\n\t}\n", "", "case-folding-like-routing", "reverts half of F39: the path is not folded")
 
+v("C15", "b9-reset-without-new-deadline", "break", "middleware/session/session.go", "\tif s.config.AbsoluteTimeout > 0 {\n\t\ts.setAbsExpiration(time.Now().Add(s.config.AbsoluteTimeout))\n\t}\n\n\treturn nil\n}\n\n// refresh generates", "\treturn nil\n}\n\n// refresh generates", "wipe-then-new-deadline", "reverts F33")
+v("C13", "b9-sliding-skip-ttl", "break", "middleware/limiter/limiter_sliding.go", "\t\t\tmanager.set(key, e, time.Duration(resetInSec+expiration)*time.Second) //nolint:gosec // Not a concern\n\t\t\t// Unlock entry", "\t\t\tmanager.set(key, e, cfg.Expiration)\n\t\t\t// Unlock entry", "lifetime-covers-next-window", "reverts F23")
+v("C13", "b10-default-config-as-is", "break", "middleware/limiter/config.go", "\tcfg := ConfigDefault\n\n\t// Override default config\n\tif len(config) > 0 {\n\t\tcfg = config[0]\n\t}\n", "\tif len(config) < 1 {\n\t\treturn ConfigDefault\n\t}\n\tcfg := config[0]\n", "config-function:MaxFunc", "reverts F22")
+v("C10", "b8-proxy-keyed-as-written", "break", "app.go", "app.config.TrustProxyConfig.ips[ip.String()] = struct{}{}", "app.config.TrustProxyConfig.ips[ipAddress] = struct{}{}", "key-agreement", "reverts F24")
+v("C07", "b11-clearcookie-raw-name", "break", "ctx.go", "c.fasthttp.Response.Header.DelClientCookie(sanitizeHeaderValue(key[i]))", "c.fasthttp.Response.Header.DelClientCookie(key[i])", "DelClientCookie", "reverts half of F27")
+v("C07", "b12-too-many-params-accepted", "break", "router.go", "\tcheckParamCount(pathRaw, parsedPretty.params)\n", "", "parameter-count-checked", "reverts F21 at registration")
+v("C09", "b8-range-not-right-trimmed", "break", "helpers.go", "\t\tfunctor(mediaRange)\n", "\t\tfunctor(header[:n])\n", "right-trimmed", "reverts F28")
+v("C18", "b13-path-params-in-map-order", "break", "client/request.go", "\tfor _, k := range keys {\n\t\tf(k, p[k])\n\t}\n}", "\tfor _, k := range keys {\n\t\t_ = k\n\t}\n\tfor k, v := range p {\n\t\tf(k, v)\n\t}\n}", "VisitAll:ordered", "reverts F30")
+v("C14", "b11-store-adds-instead-of-replacing", "break", "middleware/cache/cache.go", "\t\t\tif old := manager.get(key); old != nil && old.exp != 0 {\n\t\t\t\t_, size := heap.remove(old.heapidx)\n\t\t\t\tstoredBytes -= size\n\t\t\t}\n", "", "replaces-existing-entry", "reverts F34")
+v("C06", "b5-accept-header-folded-in-place", "break", "helpers.go", "lowerKey := utils.ToLower(utils.UnsafeString(key))", "lowerKey := utils.UnsafeString(utils.ToLowerBytes(key))", "private-buffer", "reverts F18")
+
 os.makedirs('/verif/selftest', exist_ok=True)
 for prop, vs in V.items():
     p = f'/verif/selftest/{prop.lower()}.json'
